@@ -167,6 +167,15 @@ static int nev_compile(const char * input, program * prog, int type)
 
     scanner_destroy();
 
+    /* the program keeps its own copy of the name its diagnostics carry: the
+     * scanner's name points at the caller's buffer or into the deleted AST */
+    if (prog->file_name != NULL)
+    {
+        free(prog->file_name);
+    }
+    prog->file_name = strdup(type == PARSE_FILE ? input : "<stdin>");
+    set_utils_file_name(prog->file_name);
+
     return ret;
 }
 
@@ -188,6 +197,10 @@ int nev_execute(program * prog, vm * machine, object * result)
     }
 
     set_msg_buffer(&prog->msg_count, &prog->msg_array_size, &prog->msg_array);
+    if (prog->file_name != NULL)
+    {
+        set_utils_file_name(prog->file_name);
+    }
 
     if (machine->initialized == 0)
     {
